@@ -1844,7 +1844,10 @@ def tensor_check(case):
         A = _operand(tuple(case["shape"]), 1, case["entries"])
         n = case["n"]
         snap = A.copy()
-        got, exc = call(tensor, A, n)
+        # the repetition count is passed as a Python int, a numpy int64 or a numpy int32 in turn (numpy integers used to be taken for
+        # a second Kronecker factor, repaired in toqito)
+        n_arg = (n, np.int64(n), np.int32(n))[(n + len(case["shape"]) + A.size) % 3]
+        got, exc = call(tensor, A, n_arg)
         if exc is not None:
             return viol(f"tensor(A, {n}) raised for shape {case['shape']}: {exc_text(exc)}", site="tensor:power_exception", observed=exc_text(exc)[:160])
         exp = np.eye(1, dtype=A.dtype) if n == 0 else _kron_all([A] * n)
